@@ -46,6 +46,20 @@ CLAIMS["C03"] = dict(
     ref="DESIGN.md §7 C03")
 CLAIMS["C19"]["text"] = ("Routing-core clauses fully proved on Router.Model (Props/C19.v): a Connect whose client id contains any of + $ # / leaves the router state unchanged (c19_clientid_rejected); in every state reachable by ANY op sequence two live connections never carry the same client id (a new one replaces the old: c19_unique/_reachable) and the number of live connections never exceeds max_connections (c19_limit/_reachable) — both corollaries of the router invariant RInv of C03. Admission decision of the per-connection task (first packet must be CONNECT, keep-alive != 0, client id non-empty unless clean session, credentials accepted by callback or static table) is modelled as a pure function (Stack.Model.admission) with c19_admit / c19_admit_complete proved, and the real task remote() is driven over in-memory streams (stack driver) and compared with it when comp_stack is present (see evidence.coverage). The monitor checks on the real router that a rejected link never receives a ConnAck or traffic, slab ids, and the session-present flag.")
 
+CLAIMS["C09"] = dict(
+    text="Proved on Router.Model for ALL op sequences from init (Props/C09.v, 18 statements; the number 100 is rewritten from Gen/Params.v, regenerated from iobufs.rs on every run): in every reachable state every connection's window has at most 100 entries, ids in 1..100, pairwise distinct, forming the cyclic run ending at the last issued id (c09_window); every QoS>0 forward a step puts on a link carries exactly the id recorded for it, fresh w.r.t. the still-unacknowledged ones (c09_forward_ids); forward_device_data never pushes more than free_slots (retained truncation, readv bound, round-robin 1); an ack that is not the window head closes THAT connection only and leaves every other connection's slab entries untouched (c09_unsolicited, c09_unsolicited_isolation); an in-order PUBACK/PUBREC makes a connection paused InflightFull or Caughtup Ready and queued in the same event (c09_resume). The fairness step (the id reaches the head of the ready queue and the interrupted request is swept again) is proved only as functional lemmas (_partial pins) and is decided on implementation traces by the monitor: window size/uniqueness on every forward, and at quiescence 'window was full, everything acknowledged in order, idle broker still owes acks/backlog'.",
+    note=ROUTER_NOTE + " PARTIAL: no-further-stimulus liveness is a monitor clause (quiescence = ready queue empty, all buffers drained, all received forwards acknowledged, all owed Readys sent), not a theorem.",
+    ref="DESIGN.md §7 C09")
+CLAIMS["C06"] = dict(
+    text="Proved on Router.Model (Props/C06.v, 11 statements): per packet kind exactly which acks are committed to the sender's ack log and that no other connection's log changes (QoS1 PUBLISH -> PUBACK even if the append fails; QoS2 -> PUBREC, recorded, NOT appended to any log; PUBREL -> PUBCOMP and the OLDEST recorded publish appended once; SUBSCRIBE -> one SUBACK with the requested QoS codes; UNSUBSCRIBE -> exactly one UNSUBACK with one reason per filter; PINGREQ -> PINGRESP; in-order PUBREC -> PUBREL) (c06_registered ...), acks of a batch are in packet order, and for ANY run from a reachable state the acks drained on a connection's link followed by what is still pending equal what was pending before followed by what was newly registered — nothing dropped, duplicated, reordered or delivered to another connection (c06_flush_in_order). 'Eventually sent' is decided on implementation traces: at quiescence an alive connection is owed nothing; order/identity of every ack is compared with the monitor's ghost. Two genuine defects (v5 PUBREL with properties ignored; 0 or k UNSUBACKs per UNSUBSCRIBE) were fixed.",
+    note=ROUTER_NOTE + " PARTIAL: eventual flushing relies on the connection being scheduled (monitor clause at quiescence), see C09 note.",
+    ref="DESIGN.md §7 C06")
+
+CLAIMS["C20"] = dict(
+    text="Proved (Props/C20.v): the conversion of router notifications to packets is total and returns no packet exactly for Unschedule and the non-device notifications; for every notification the router model can put in a link buffer (all constructors of the notification type: forwards with any stored properties/alias/subscription id, every ack kind, Disconnect, Unschedule) both the V4 and the V5 writer have a dispatch arm for the resulting (packet kind, properties present?) pair, so neither writer can reach unreachable!()/an error by dispatch (c20_encodable_dispatch, c20_write_no_panic, c20_batch_no_panic); content preservation of the conversion (c20_content); and the record that the unfixed V4 writer refuted it (c20_f2_unfixed_refuted). The REAL per-connection tasks remote_v4/remote_v5 are run over in-memory streams against a real router thread: publisher x subscriber over v4/v5 x QoS x every subset of the 8 PUBLISH properties (2^8 exhaustively), checking same topic/payload, properties preserved towards v5 (minus topic alias) and dropped towards v4, no task panic; plus the real Protocol::write on every notification kind with rumqttc decoding the bytes. Byte-level correctness of the encodings is C04 (v4 proved; v5 under construction).",
+    note="PARTIAL: dispatch-level theorem + end-to-end runs; byte-level v5 encoding theorems belong to C04 (pending). Trusted: stack driver (harness/src/bin/stack.rs) incl. real-time fences; tokio, flume, the router thread scheduling are outside the model. Four defects found and fixed (F2, F15, F25, F26).",
+    ref="DESIGN.md §7 C20")
+
 ROUTER_PROPS = {
     "C01": "exact ordered delivery to matching subscriptions",
     "C03": "no client behaviour can crash the routing core",
